@@ -30,7 +30,7 @@ def states(sim, modules=None):
     au = np.asarray(ppl.auids)
     out = {'people.__auids__': au.copy()}
     if modules is None or '__people__' in modules:
-        for st in ppl.states.values() if hasattr(ppl, 'states') and hasattr(ppl.states, 'values') else []:
+        for st in (ppl.states.values() if modules is None and hasattr(ppl, 'states') and hasattr(ppl.states, 'values') else []):
             try: out[f'people.{st.name}'] = np.asarray(st.raw[au]).copy()
             except Exception: pass
         for nm in ('uid', 'slot', 'alive', 'female', 'age', 'ti_dead', 'scale', 'parent'):
